@@ -35,7 +35,9 @@ def _case(draw, nmax):
         X = [[v + off for v in p] for p in X]
     Y = draw(gen.labels(nt, 2, 3))
     perm = list(draw(st.permutations(list(range(nt)))))
-    return {"X": X, "nt": nt, "nq": nq, "Y": Y, "perm": perm}
+    # how the permuted run is obtained: a fresh model, or the SAME object re-fitted after helper calls / a save-load round trip
+    hist = draw(st.sampled_from(["fresh", "fresh", "refit_same_object", "refit_after_get_distances", "via_load"]))
+    return {"X": X, "nt": nt, "nq": nq, "Y": Y, "perm": perm, "history": hist}
 
 
 @st.composite
@@ -87,13 +89,35 @@ def check_pre(case):
     return Outcome.ok(nontrivial=moved0 and moved_proto, classes=["pre_" + case["wmode"]] + (["perm_moves_index0"] if moved0 else []))
 
 
-def _fit(name, X, Y, Q):
+def _fit(name, X, Y, Q, model=None, keep=None):
     np = models.np()
-    m = libcall(models.classes()["sup"], distance=name)
+    m = model if model is not None else libcall(models.classes()["sup"], distance=name)
     libcall(m.fit, np.array(X, dtype=float), np.array(Y, dtype=int))
     s = models.node_state(m)
     p = [int(v) for v in libcall(m.predict, np.array(Q, dtype=float))]
+    if keep is not None:
+        keep[name] = m
     return s, p
+
+
+def _with_history(name, hist, kept):
+    """the model object on which the permuted run is executed"""
+    import os
+    import tempfile
+
+    if hist == "fresh" or name not in kept:
+        return None
+    m = kept[name]
+    if hist == "refit_after_get_distances":
+        libcall(m.get_distances)
+        libcall(m.get_distances, True)
+    elif hist == "via_load":
+        with tempfile.TemporaryDirectory(prefix="c11-") as tmp:
+            f = os.path.join(tmp, "m.pkl")
+            libcall(m.save, f)
+            m = libcall(models.classes()["sup"])  # default constructor arguments
+            libcall(m.load, f)
+    return m
 
 
 def _rank(vals):
@@ -132,13 +156,15 @@ def check_case(case):
             base_rank = rk
         else:
             require(rk == base_rank, "rescaling:strictly_increasing_transform", lambda: "%s orders the pairs differently from %s on X=%r" % (n, FIVE[0], X))
-    runs = {n: _fit(n, tr, Y, qs) for n in FIVE}
+    kept = {}
+    runs = {n: _fit(n, tr, Y, qs, keep=kept) for n in FIVE}
+    hist = case.get("history", "fresh")
     # --- permutation invariance (each of the five metrics)
     trp = [tr[i] for i in perm]
     Yp = [Y[i] for i in perm]
     for n in FIVE:
         s, p = runs[n]
-        sp, pp = _fit(n, trp, Yp, qs)
+        sp, pp = _fit(n, trp, Yp, qs, model=_with_history(n, hist, kept))
         for j in range(nt):
             i = perm[j]
             for f in ("cost", "status", "predicted_label"):
@@ -161,7 +187,7 @@ def check_case(case):
         _, mval, vals = oracles.argmin_labels(s0["cost"], s0["predicted_label"], [D[t][nt + q] for t in range(nt)])
         if any(v == mval and t not in protos for t, v in enumerate(vals)):
             nonproto_argmin = True
-    cl = []
+    cl = ["history_" + hist]
     if moved0:
         cl.append("perm_moves_index0")
     if nonproto_argmin:
